@@ -87,6 +87,24 @@ def _tables(repo):
     return out
 
 
+def _repeat_count(x):
+    try:
+        if isinstance(x, ast.ListComp) and isinstance(x.generators[0].iter, ast.Call) and U.call_name(x.generators[0].iter) == 'range' \
+                and len(x.generators) == 1 and not x.generators[0].ifs:
+            return U.const_value(x.generators[0].iter.args[0])
+        if isinstance(x, ast.BinOp) and isinstance(x.op, ast.Mult):
+            for lst, k in ((x.left, x.right), (x.right, x.left)):
+                if isinstance(lst, ast.List) and len(lst.elts) == 1:
+                    return U.const_value(k)
+        if isinstance(x, ast.Call) and U.call_name(x) == 'np.full' and x.args:
+            return U.const_value(x.args[0])
+        if isinstance(x, ast.Call) and U.call_name(x) == 'np.repeat' and len(x.args) >= 2:
+            return U.const_value(x.args[1])
+    except ValueError:
+        return None
+    return None
+
+
 def r162(repo, ctx):
     import sympy as sp
     tabs = _tables(repo)
@@ -99,12 +117,23 @@ def r162(repo, ctx):
         if isinstance(s, ast.If) and isinstance(s.test, ast.Compare) and isinstance(s.test.comparators[0], ast.Constant) and isinstance(s.test.comparators[0].value, str):
             kind = s.test.comparators[0].value
             branches[kind] = s
+            # the weight of the orbit is appended k times: weights = np.concatenate((weights, X)) with X = [w for _ in range(k)],
+            # [w]*k, np.full(k, w) or np.repeat(w, k) (directly or through a local of the branch)
+            local = {}
             for st in s.body:
-                if isinstance(st, ast.Assign) and isinstance(st.value, ast.ListComp) and isinstance(st.value.generators[0].iter, ast.Call) and U.call_name(st.value.generators[0].iter) == 'range':
-                    try:
-                        mult[kind] = U.const_value(st.value.generators[0].iter.args[0])
-                    except ValueError:
-                        pass
+                if isinstance(st, ast.Assign) and isinstance(st.targets[0], ast.Name):
+                    local[st.targets[0].id] = st.value
+            for st in s.body:
+                if isinstance(st, ast.Assign) and isinstance(st.targets[0], ast.Name) and st.targets[0].id == 'weights' and isinstance(st.value, ast.Call) \
+                        and U.call_name(st.value) in ('np.concatenate', 'np.append', 'np.hstack'):
+                    a = st.value.args
+                    parts = list(a[0].elts) if len(a) >= 1 and isinstance(a[0], (ast.Tuple, ast.List)) else list(a)
+                    for x in parts:
+                        if isinstance(x, ast.Name) and x.id in local:
+                            x = local[x.id]
+                        k = _repeat_count(x)
+                        if k is not None:
+                            mult[kind] = k
     ctx.check(mult == MULT, 'R16.2', LN, 'loadPoints', lp, f'orbit multiplicities in the generator are {MULT}', f'orbit multiplicities in the generator are {mult}, expected {MULT}', construct=f'multiplicities {mult}')
     for name, (node, rows) in tabs.items():
         wsum = sum(r[1] * MULT.get(r[0], 0) for r in rows)
